@@ -8,6 +8,8 @@
    prints case + oracle for the classes with at most MaxFaults deviations (ReqClass!Emitted).                   *)
 EXTENDS ReqClass, TLC, Json
 
+CONSTANT FullProduct     \* TRUE: the whole fresh-connection product is walked (thorough tier);
+                         \* FALSE: only as far as classes can still be emitted (quick tier)
 VARIABLE c
 
 WalkInit == c \in {[k |-> "req", hist |-> "fresh", m |-> mm, rv |-> "ok", pv |-> "ok", seg |-> "none", ptr |-> "none", loc |-> "absent",
@@ -15,7 +17,7 @@ WalkInit == c \in {[k |-> "req", hist |-> "fresh", m |-> mm, rv |-> "ok", pv |->
 
 \* the connection-history dimension multiplies the product by 6; classes with a history are walked only as far as
 \* they can still be emitted (Changed is monotone along a path and Faults(c) >= Changed(c) - 2)
-Step(d) == /\ d.hist = "fresh" \/ Changed(d) <= MaxFaults + 2
+Step(d) == /\ (FullProduct /\ d.hist = "fresh") \/ Changed(d) <= MaxFaults + 2
            /\ c' = d
 
 \* one generation path per class: dimensions are changed in a fixed order, each at most once (a dimension may be
